@@ -3,6 +3,7 @@ SPECIFICATION Spec
 CONSTANTS
   ND = 2
   RefKinds <- BehKinds
+  InsKinds <- BehIns
   ExtSets <- BehExt
   InitSets <- BehInit
   MaxRefs = 3
